@@ -56,7 +56,11 @@ C11OK(Lat) == /\ Clause("again-same-object", Ev.again_same)     \* asking again 
 
 Eps == 4 * (Len(Ev.links) + 2)
 Abs(x) == IF x < 0 THEN -x ELSE x
-C12LatOK(Lat) == Ev.hasbest =>
+C12LatOK(Lat) ==
+    \* a lattice has a start-to-end path, so the best-path search must find one
+    /\ Clause("bestpath-exists", Ev.hasbest)
+    /\ Ev.hasbest =>
+         /\ Clause("posterior-again-le-1", Ev.post2.best <= Eps /\ Ev.post2.maxlink <= Eps)
          /\ Clause("bestpath-is-start-end-path",
                    IsStartEndPath(Lat, [i \in DOMAIN Ev.best.path |->
                                     <<Ev.best.path[i][1] + 1, Ev.best.path[i][2] + 1, Ev.best.path[i][3]>>]))
@@ -75,7 +79,7 @@ TLattice == /\ Ev.e = "Lattice"
                        /\ lat' = [ok |-> TRUE, L |-> LL]
             /\ UNCHANGED <<g, res>>
 
-C12NBestOK == /\ Clause("nbest-non-increasing", NonIncreasing([i \in DOMAIN Ev.items |-> Ev.items[i].score]))
+C12NBestOK == /\ Clause("nbest-non-increasing", NonIncreasing([i \in DOMAIN Ev.items |-> Ev.items[i].score] \o Ev.more))
               /\ Clause("nbest-hyp-is-lattice-path",
                         lat.ok => \A i \in DOMAIN Ev.items : HypIsLatticePath(lat.L, Ev.items[i].hyp))
               /\ Clause("nbest-without-lattice", (~lat.ok) => Ev.items = <<>>)
